@@ -409,7 +409,7 @@ func c13Search(s *Search) {
 		}
 		pending = pending[:0]
 	}
-	for i := uint64(0); s.More(); i++ {
+	for i := s.Base(); s.More(); i++ {
 		if !s.Mine(int(i)) {
 			continue
 		}
